@@ -36,6 +36,7 @@ TEXTS = [
     'et\tal. one\n\ttwo   three',
     'loci.e. and i.e. max-ray x-ray tube, I don\'t sodon\'t',
     'so  dass so\n   dass one  two\n three A  B\tC',
+    'so\xa0dass wir z.\u202fB. so \xa0 dass und z.\xa0\nB. aber so\xa0\n\u202f\ndass',
 ]
 RULES = [
     ['so dass & sodass'],
@@ -54,6 +55,7 @@ RULES = [
     ['so dass & so_dass', 'et al. & et_al.', 'one two three & one-two-three'],
     ['A B C & X Y Z', 'z.B. & z.B.', 'two three & 2 3 4 5 6'],
     ['i.e. & that is', 'x-ray & XRAY', "don't & do not"],
+    ['z. B. & zum Beispiel', 'so dass & sodass'],
 ]
 
 
@@ -83,7 +85,9 @@ def ref_match_at(txt, i, words):
         if n:
             k = j
             nl = 0
-            while k < len(txt) and txt[k] in ' \t\n':
+            # "arbitrary space in the plain text that does not break the paragraph" (README):
+            # every white-space character, incl. the (narrow) no-break spaces from ~ and \,
+            while k < len(txt) and txt[k].isspace():
                 if txt[k] == '\n':
                     nl += 1
                 k += 1
@@ -323,7 +327,8 @@ def run_rx(item):
     s = z3.String('s')
     A = z3.Full(z3.ReSort(z3.StringSort()))
     nl = z3.Re(z3.StringVal('\n'))
-    blanks = z3.Plus(z3.Union(z3.Re(z3.StringVal(' ')), z3.Re(z3.StringVal('\t')), nl))
+    blanks = z3.Plus(rx.space_class())
+    sp = rx.space_class(exclude='\n')       # any white space except the line break
     for sep in sorted(set(seps)):
         try:
             r = rx.to_z3(sep)
@@ -347,13 +352,9 @@ def run_rx(item):
                 wit = sol.model()[s].as_string()
                 fails.append({'witness': {'sep': sep, 's': wit},
                               'msg': 'separator %r %s: %r' % (sep, name, wit)})
-        # the other direction: every blank run with at most one newline IS matched
+        # the other direction: every white-space run with at most one line break IS matched
         obligations += 1
-        ok_runs = z3.Union(z3.Plus(z3.Union(z3.Re(z3.StringVal(' ')), z3.Re(z3.StringVal('\t')))),
-                           z3.Concat(z3.Star(z3.Union(z3.Re(z3.StringVal(' ')),
-                                                      z3.Re(z3.StringVal('\t')))), nl,
-                                     z3.Star(z3.Union(z3.Re(z3.StringVal(' ')),
-                                                      z3.Re(z3.StringVal('\t'))))))
+        ok_runs = z3.Union(z3.Plus(sp), z3.Concat(z3.Star(sp), nl, z3.Star(sp)))
         sol = z3.Solver()
         sol.set('timeout', 60000)
         sol.add(z3.InRe(s, ok_runs), z3.Not(z3.InRe(s, r)))
